@@ -12,7 +12,7 @@ from typing import Any, Dict, List, Optional, Tuple
 from icv import tlc
 
 DEF_SWITCHES = ["SwNoOwnEmptyInvList", "SwKeepBasePre", "SwSnapAnyChecker", "SwDropForeign", "SwWrapByLast",
-                "SwRebindWrapped", "SwShareGroups", "SwRecollapse", "SwCloneAdoptsInherited", "SwLateInvAppendsToBase", "SwShadow"]
+                "SwRebindWrapped", "SwShareGroups", "SwRecollapse", "SwCloneAdoptsInherited", "SwLateInvAppendsToBase", "SwDiamondDuplicates", "SwShadow"]
 DEF_ALL_OFF = {n: False for n in DEF_SWITCHES}
 DEF_INVARIANTS = ["EffPreEqRef", "EffPostEqRef", "EffSnapEqRef", "EffInvEqRef", "RejectedExactly", "NoSharedInvList",
                   "SingleChecker", "ForeignKept", "RegisteredOnce"]
